@@ -69,5 +69,5 @@ std::vector<std::string> allTypeNames();
 
 // Builds a model (root NiNode + `count` generated instances of `type`, each referenced from the root) in `nif`.
 // Returns false if the type is unknown.
-bool synthModel(nifly::NifFile& nif, const std::string& type, const std::string& ver, uint64_t seed, int count);
+bool synthModel(nifly::NifFile& nif, const std::string& type, const std::string& ver, uint64_t seed, int count, uint32_t maxCount = 3);
 } // namespace vh
